@@ -86,10 +86,11 @@ func init() {
 			}
 			return 900
 		},
-		Required: []string{"stage_json", "stage_binary_round", "stage_raw_json", "stage_json_export", "stage_binary_born", "verify_valid", "verify_invalid", "raw_fallback_reached", "stored_as_rlp", "change_id_differs", "change_same_phrase_same_id", "class_canonical", "class_noncanonical", "class_ambiguous", "style_variants_agree", "concurrent_parses", "concurrent_roundtrips", "concurrent_goroutine_runs"},
+		Required: []string{"stage_json", "stage_binary_round", "stage_raw_json", "stage_json_export", "stage_binary_born", "verify_valid", "verify_invalid", "raw_fallback_reached", "stored_as_rlp", "change_id_differs", "change_same_phrase_same_id", "class_canonical", "class_noncanonical", "class_ambiguous", "style_variants_agree", "dict_keys_with_special_characters", "changed_dict-flatten-two-members-into-one-key", "concurrent_parses", "concurrent_roundtrips", "concurrent_goroutine_runs"},
 		Assumptions: []string{
 			"the ICON v3 hash rule is: sha3-256 of 'icx_sendTransaction.' + sorted key.value walk, strings escaped at \\ { } [ ] . , null = \\0, {..} for objects, [..] for arrays, members signature and txHash left out (reference in lib/sig/icon.go, written from the format rules; /repo/doc has no text for the rule, the Java SDK serializer in /repo/sdk agrees with it)",
-			"JSON numbers, keys containing escaped/non-ASCII characters and the empty key are outside the reference (consistency checks only)",
+			"dictionary keys are written escaped like string values (goloop does; the Java SDK does not): without it {\"a\":\"b\",\"c\":\"d\"} and {\"a.b.c\":\"d\"} share one phrase; ASCII keys incl. empty ones and ones with the escaped characters are reference-checked",
+			"JSON numbers and non-ASCII keys are outside the reference (consistency checks only)",
 			"decred secp256k1 for signing; golang.org/x/crypto/sha3",
 			"goloop's codec is trusted to build the harness-made RLP form (it is under C23)",
 		},
@@ -177,6 +178,10 @@ func checkTx(c *ev.Ctx, r *rand.Rand, t *txCase, key, wrong *sig.Key) {
 	c.Count([]string{"class_canonical", "class_noncanonical", "class_ambiguous"}[t.class], 1)
 	if t.e.canonical {
 		c.Count("all_literals_canonical", 1)
+	}
+	if n := countSpecialKeys(t.tx.Get("data")); n > 0 && t.class != 2 {
+		c.Count("dict_keys_with_special_characters", n)
+		c.Count("transactions_with_special_keys", 1)
 	}
 	for _, f := range t.e.forms {
 		c.Count("form_"+f, 1)
